@@ -29,6 +29,8 @@ pub struct MFrame {
     pub observed_gone: bool,
     pub imported: bool,
     pub era: u32,
+    /// a GC drain was acknowledged after this frame was appended, in the same process
+    pub drained_in_era: bool,
 }
 
 #[derive(Clone, Debug)]
@@ -58,6 +60,8 @@ pub struct Model {
     pub ephemerals: BTreeMap<u128, Frame>,
     pub era: u32,
     pub last_append_id: Option<Scru128Id>,
+    /// (ctx, topic) groups whose head:K collection was pending when the process ended
+    pub gc_interrupted: BTreeSet<(u128, String)>,
 }
 
 fn time_ttl_ms(f: &Frame) -> Option<u64> {
@@ -159,6 +163,7 @@ impl Model {
                 observed_gone: false,
                 imported,
                 era: self.era,
+                drained_in_era: false,
             },
         );
     }
@@ -208,14 +213,24 @@ impl Model {
     }
 
     pub fn on_drain(&mut self) {
+        let era = self.era;
         for m in self.frames.values_mut() {
             if m.scanned_expired {
                 m.gc_gone = true;
+            }
+            if m.era == era {
+                m.drained_in_era = true;
             }
         }
     }
 
     pub fn on_reopen(&mut self) {
+        let era = self.era;
+        for m in self.frames.values() {
+            if m.era == era && !m.drained_in_era && matches!(m.frame.ttl, Some(TTL::Head(_))) {
+                self.gc_interrupted.insert((m.frame.context_id.to_u128(), m.frame.topic.clone()));
+            }
+        }
         self.era += 1;
     }
 
